@@ -28,17 +28,33 @@ type VerifC10Probe struct {
 var (
 	verifC10Probes sync.Map // endpoint URL -> *VerifC10Probe
 	verifC10Once   sync.Once
-	verifC10Holds  sync.Map // endpoint URL -> chan struct{} (closed on release)
+	verifC10Holds  sync.Map // endpoint URL -> *verifC10HoldT
 )
 
 // VerifC10Hold makes background unifications of endpointURL wait at their start until the returned
 // function is called.
 func VerifC10Hold(endpointURL string) (release func()) {
-	ch := make(chan struct{})
-	verifC10Holds.Store(endpointURL, ch)
+	return verifC10HoldWith(endpointURL, false)
+}
+
+// VerifC10HoldFirst holds only the FIRST background unification of endpointURL that arrives; later ones run
+// past it -- so that a newer listing is unified before an older one.
+func VerifC10HoldFirst(endpointURL string) (release func()) {
+	return verifC10HoldWith(endpointURL, true)
+}
+
+type verifC10HoldT struct {
+	ch        chan struct{}
+	firstOnly bool
+	taken     atomic.Bool
+}
+
+func verifC10HoldWith(endpointURL string, firstOnly bool) (release func()) {
+	h := &verifC10HoldT{ch: make(chan struct{}), firstOnly: firstOnly}
+	verifC10Holds.Store(endpointURL, h)
 	return func() {
 		verifC10Holds.Delete(endpointURL)
-		close(ch)
+		close(h.ch)
 	}
 }
 
@@ -52,8 +68,11 @@ func VerifC10Instrument(reg domain.ModelRegistry) *VerifC10Probe {
 		verifhook.Set(func(name, key string) {
 			if name == "registry.unify" {
 				// gate: a background unification of this endpoint waits here while the harness holds it
-				if ch, ok := verifC10Holds.Load(key); ok {
-					<-ch.(chan struct{})
+				if h, ok := verifC10Holds.Load(key); ok {
+					hold := h.(*verifC10HoldT)
+					if !hold.firstOnly || hold.taken.CompareAndSwap(false, true) {
+						<-hold.ch
+					}
 				}
 				return
 			}
